@@ -125,8 +125,8 @@ def run(chk):
     # 3. one behaviour per edge -> real ffldb
     plans = [(192, SIZES[192]["quick"], 3, 2, None)]
     if thorough:
-        plans += [(192, SIZES[192]["thorough"], 4, 3, None), (110, SIZES[110]["thorough"], 4, 3, None),
-                  (192, (84, 85, 180), 5, 2, 20000)]
+        plans += [(192, SIZES[192]["thorough"], 4, 3, 12000), (110, SIZES[110]["thorough"], 4, 3, 6000),
+                  (192, (84, 85, 180), 5, 2, 6000)]
     else:
         plans += [(192, SIZES[192]["quick"], 4, 3, 1200)]
     last = None
